@@ -1428,7 +1428,8 @@ int main(int argc, char** argv)
 		sh.key = f.key;
 		sh.plan = plan;
 		sh.cfg = cfg;
-		sh.deadline = wallNow() + (shrunk < 3 ? 90 : 10);
+		double shrinkBudget = getenv("VERIF_SHRINK_BUDGET") ? atof(getenv("VERIF_SHRINK_BUDGET")) : 90;
+		sh.deadline = wallNow() + (shrunk < 3 ? shrinkBudget : std::min(10.0, shrinkBudget));
 		if (!opt.noShrink && shrunk < 6)
 		{
 			sh.shrinkOps();
